@@ -15,7 +15,7 @@
     visibly non-atomic (mkdir -p): [C09_mkdir_p_not_atomic] is a schedule of the CURRENT code
     whose outcome equals neither sequential order (the remover removes the directory that the
     racing MkdirAll has just created, the MkdirAll starts again from the root). *)
-From GC Require Import Common.Base Model.Paths Model.Fs Model.MemConc Proofs.Fs Proofs.MemConc.
+From GC Require Import Common.Base Model.Paths Model.Fs Model.MemConc Proofs.Fs Proofs.MemConc Proofs.MemLive.
 Open Scope N_scope.
 
 (** In every reachable state (any threads, any programs with good path names, any schedule,
@@ -166,13 +166,95 @@ Print Assumptions C09_no_panic.
     same file deadlocks by design).  PROVED: for the 63 F28 configurations (and, inside
     C09_create_once_partial, for the configurations with Writer/Reader sessions) every state of
     every schedule in which no thread has an enabled step is final.  The general invariant
-    (lock holder is always at an enabled program counter) is not proved; termination of the
-    retry loops needs scheduler fairness and is not modelled. *)
+    (lock holder is always at an enabled program counter) is not proved HERE; it is proved
+    further down: C09_no_deadlock, C09_lock_holder_progress and C09_can_finish cover all programs
+    and supersede this theorem, which is kept as it was stated.  Termination of the retry loops
+    under every fair schedule is not claimed. *)
 Theorem C09_no_stuck_partial : forall sc sched,
   In sc f28_scenarios -> (forall t, step cur t (run cur sched (sc_init sc)) = None) ->
   final (run cur sched (sc_init sc)) = true.
 Proof. exact no_stuck_f28. Qed.
 Print Assumptions C09_no_stuck_partial.
+
+(** No deadlock, for ALL thread programs over the operations of the model, ALL schedules, the
+    current flavour.  Initial heap: any quiescent heap accepted by [good_shared] that is
+    tree-shaped ([tree_shared], executable: every directory object is linked at most once, no link
+    to the root or to a removed directory, no cycle) - the empty filespace and everything [setup]
+    builds.  In every reachable state: if no thread has an enabled step, every thread has
+    finished.  Proof: lock-holder invariant (the directory lock L / a file data lock is held by
+    t iff t is at PInL / in an open Reader or Writer session on that object; Proofs/MemLive.v
+    [LH]), forest invariant with private snapshots ([FOREST]: a rank decreases along every link,
+    so the deep copy never runs out of fuel), and the wait-for chain
+    PLockL -> holder at PInL -> holder of the file (open session) has length at most 2 and ends
+    in a thread whose next step (Write / Close) is always enabled.
+    Sessions are single operations in this model (open; Write*; Close by the same thread before
+    its next call); see [C09_nested_session_deadlock_refuted] for what happens otherwise. *)
+Theorem C09_no_deadlock : forall s0 progs sched,
+  good_shared s0 = true -> tree_shared s0 = true ->
+  let st := run cur sched (boot s0 progs) in
+  (forall t, step cur t st = None) -> final st = true.
+Proof. exact no_deadlock_tree. Qed.
+Print Assumptions C09_no_deadlock.
+
+(** The lock-holder progress invariant behind it: in every reachable state a thread that has not
+    finished and has no enabled step waits for a lock, and some thread that is inside a critical
+    region or an open session ([holds_lock]) has an enabled step. *)
+Theorem C09_lock_holder_progress : forall s0 progs sched t l,
+  good_shared s0 = true -> tree_shared s0 = true ->
+  let st := run cur sched (boot s0 progs) in
+  nth_error (ths st) t = Some l -> done l = false -> step cur t st = None ->
+  exists t' l' st', nth_error (ths st) t' = Some l' /\ holds_lock (pc l') = true /\
+                    step cur t' st = Some st'.
+Proof. exact lock_holder_progress. Qed.
+Print Assumptions C09_lock_holder_progress.
+
+(** Weak termination: from EVERY reachable state of such programs some continuation schedule
+    leads to a state in which all threads have finished (no livelock that cannot be left, no
+    lost wake-up).  Proof by an explicit schedule: finish the threads one after the other; while
+    the chosen thread is blocked, step a thread that is inside a critical region or session
+    (that decreases the sum [Bsum] of the remaining region steps and does not touch any removed
+    mark); otherwise step the chosen thread, which decreases its measure [mu] (remaining steps of
+    the current call including ONE restart from the root when the directory it stands on has
+    been removed - after the restart it walks from the root through linked directories, and
+    linked directories are never removed in a forest - plus a bound for the calls still to come).
+    Termination under EVERY fair schedule is not claimed: a creator can be overtaken by
+    removers again and again. *)
+Theorem C09_can_finish : forall s0 progs sched,
+  good_shared s0 = true -> tree_shared s0 = true ->
+  exists sched', final (run cur (sched ++ sched') (boot s0 progs)) = true.
+Proof. exact can_finish_tree. Qed.
+Print Assumptions C09_can_finish.
+
+(** [tree_shared] cannot be dropped (artefacts of initial heaps that the memfs API cannot build):
+    on a cyclic heap accepted by [good_shared] the deep copy of Copy runs out of fuel and the only
+    thread is stuck for ever ... *)
+Theorem C09_no_deadlock_cyclic_heap_refuted :
+  good_shared s_cyclic = true /\ tree_shared s_cyclic = false /\
+  (forall t, step cur t st_cyclic = None) /\ final st_cyclic = false.
+Proof. exact cyclic_heap_deadlock. Qed.
+Print Assumptions C09_no_deadlock_cyclic_heap_refuted.
+
+(** ... and on a heap in which one directory object is linked under two names, Remove a followed by
+    MkdirAll d/x (one thread) restarts from the root for ever: no schedule finishes. *)
+Theorem C09_can_finish_shared_dir_refuted :
+  good_shared s_shared_dir = true /\ tree_shared s_shared_dir = false /\
+  forall sched, final (run cur sched st_loop0) = false.
+Proof. exact shared_dir_livelock. Qed.
+Print Assumptions C09_can_finish_shared_dir_refuted.
+
+(** Outside the program space of the two theorems: a goroutine that calls into memfs while it
+    holds a Reader/Writer session ([step_nested]: thread 0 does not Close before thread 1, which
+    runs the nested call, has finished).  Writer x ; ReadFile x inside the session: nothing is
+    enabled, nobody has finished.  Two goroutines, each holding a session and reading the other's
+    file: the same.  The implementation behaves identically (checked with a throw-away test:
+    both hang; the data lock is a non-reentrant sync.RWMutex) - by design, not a violation. *)
+Theorem C09_nested_session_deadlock_refuted :
+  ((forall t, step_nested dep_self cur t st_nested_self = None) /\ final st_nested_self = false /\
+   map pc (ths st_nested_self) = [PWriting 0 []; PReadData 0]) /\
+  ((forall t, step_nested dep_cross cur t st_nested_cross = None) /\ final st_nested_cross = false /\
+   map pc (ths st_nested_cross) = [PWriting 0 []; PWriting 1 []; PReadData 1; PReadData 0]).
+Proof. exact nested_session_deadlock. Qed.
+Print Assumptions C09_nested_session_deadlock_refuted.
 
 (** Hypotheses are satisfiable by non-trivial values. *)
 Example C09_ex_good_shared :
@@ -204,3 +286,27 @@ Proof. reflexivity. Qed.
 Example C09_ex_no_empty_value :
   vals_of cur st_writer_window = [[1;2]] /\ vals_of before_288e3e2 st_writer_window = [[1;2]; []].
 Proof. vm_compute. split; reflexivity. Qed.
+
+(** the initial heaps of the theorems: tree-shaped heaps exist beyond the empty one (built with
+    MkdirAll, WriteFile, Copy of a directory into another, RemoveAll), and every scenario heap
+    used above is one *)
+Example C09_ex_tree_shared :
+  tree_shared empty_shared = true /\
+  (let s := setup [CMkdir [nD; nE]; CWrite [nS] [1;2;3]; CWrite [nT; nS] [4]; CCopy CAny [nD] [nT; nX];
+                   CCopy CAny [nT] [nA]; CRemove [nD] true] in
+   good_shared s = true /\ tree_shared s = true /\ length (dirs s) = 9%nat) /\
+  forallb (fun sc => tree_shared (sh (sc_init sc))) f28_scenarios = true /\
+  forallb (fun c => tree_shared (sh (fst c))) co_configs = true.
+Proof. vm_compute. repeat split; reflexivity. Qed.
+
+(** a reachable state in which threads ARE blocked (an open Writer session on x; a ReadFile x
+    waiting for it; a WriteFile x waiting for it while holding the directory lock; a WriteFile y
+    waiting for the directory lock): exactly the session holder is enabled, and the continuation
+    0,0,0,2,3,3,1 finishes everybody *)
+Example C09_ex_blocked :
+  let st0 := boot (setup [CWrite [nX] [9]])
+                  [[CWriter [nX] [[1];[2]]]; [CRead [nX]]; [CWrite [nX] [3]]; [CWrite [nY] [4]]] in
+  let st := run cur [0;0;0;1;1;2;2;3;3]%nat st0 in
+  map (fun t => match step cur t st with None => false | Some _ => true end) (seq 0 4) = [true; false; false; false] /\
+  final st = false /\ final (run cur [0;0;0;2;3;3;1]%nat st) = true.
+Proof. vm_compute. repeat split; reflexivity. Qed.
